@@ -646,6 +646,9 @@ bool GlobalGraph::nodesAreMetOnlyOnce_(const GlobalGraph::Node& node, set<Global
 
 bool GlobalGraph::isDA() const
 {
+  if (nodeStructure_.empty())
+    return true;
+
   GlobalGraph gg(*this);
 
   gg.observers_.clear();
